@@ -304,9 +304,39 @@ mod verif_order {
     harness!(bubble_sort_n4, 8, bubble_sort_contract::<4, 6>());
     harness!(bubble_sort_n5, 12, bubble_sort_contract::<5, 10>());
 
-    harness!(concurrent_one_worker_n3, 6, concurrent_bubble_sort_one_worker_contract::<3, 3>());
-    harness!(concurrent_one_worker_n4, 9, concurrent_bubble_sort_one_worker_contract::<4, 6>());
-    harness!(concurrent_one_worker_n5, 13, concurrent_bubble_sort_one_worker_contract::<5, 10>());
+    // The contended slow paths of parking_lot (thread parking: thread-locals, futex, Instant) make
+    // kani-compiler 0.68 crash (internal compiler error in kani-compiler/src/intrinsics.rs:243).
+    // They are replaced by stubs that PANIC: "a single worker never blocks" is therefore checked by
+    // these harnesses, not assumed (a reachable stub would refute the harness).
+    fn stub_lock_slow(_m: &parking_lot::RawMutex, _timeout: Option<std::time::Instant>) -> bool {
+        panic!()
+    }
+    fn stub_unlock_slow(_m: &parking_lot::RawMutex, _force_fair: bool) {
+        panic!()
+    }
+    fn stub_condvar_wait(
+        _c: &parking_lot::Condvar,
+        _m: &parking_lot::RawMutex,
+        _timeout: Option<std::time::Instant>,
+    ) -> parking_lot::WaitTimeoutResult {
+        panic!()
+    }
+    macro_rules! harness_one_worker {
+        ($name:ident, $unwind:expr, $body:expr) => {
+            #[kani::proof]
+            #[kani::unwind($unwind)]
+            #[kani::stub(parking_lot::RawMutex::lock_slow, stub_lock_slow)]
+            #[kani::stub(parking_lot::RawMutex::unlock_slow, stub_unlock_slow)]
+            #[kani::stub(parking_lot::Condvar::wait_until_internal, stub_condvar_wait)]
+            fn $name() {
+                $body
+            }
+        };
+    }
+    harness_one_worker!(concurrent_one_worker_n2, 3, concurrent_bubble_sort_one_worker_contract::<2, 1>());
+    harness_one_worker!(concurrent_one_worker_n3, 4, concurrent_bubble_sort_one_worker_contract::<3, 3>());
+    harness_one_worker!(concurrent_one_worker_n4, 7, concurrent_bubble_sort_one_worker_contract::<4, 6>());
+    harness_one_worker!(concurrent_one_worker_n5, 11, concurrent_bubble_sort_one_worker_contract::<5, 10>());
 
     // ---------------------------------------------------------------- self tests (MUST fail)
 
